@@ -3,7 +3,7 @@ from props import schedcommon as sc
 
 PROPERTY = 'C02'
 THEOREMS = ['Sched.final_status_eq_spec', 'Sched.schedule_independent', 'Sched.soft_never_blocks', 'Sched.InvB_step', 'Sched.InvB_init', 'Sched.spec_eq']
-BUDGET = {'quick': 250, 'thorough': 6000}
+BUDGET = {'quick': 700, 'thorough': 6000}
 TIME_LIMIT = {'quick': 55, 'thorough': 700}
 RULE = ('single runs from an empty environment' + '; the real QueueScheduling backend runs under the controlled scheduler; non-trivial = '
         '>= 3 tasks with >= 2 edges on >= 2 workers, or a special feature (cycle, stale entries, same backend, lost '
